@@ -266,6 +266,13 @@ impl Prepared {
                 let _ = (f.call)(0);
             }
         }
+        // ... and every operation of the driver once, sequentially: whatever an implementation
+        // initialises lazily on first use (of a tag, an event, a statistics query ...) is warm as well
+        if driver.l0.is_none() && funcs.iter().all(|f| f.flavour != Flavour::Thread) {
+            for op in driver.threads.iter().flatten() {
+                let _ = std::panic::catch_unwind(|| perform(op, &None));
+            }
+        }
         Prepared { driver: driver.clone(), funcs, events: Arc::new(Mutex::new(Vec::new())), iso: Mutex::new(None), cold: false }
     }
 
@@ -722,6 +729,26 @@ pub fn explore_driver(d: &Driver, property: &str, max_bound: usize, unbounded_if
             return res;
         }
         if a.render_schedule() != b.render_schedule() || qa.observation != qb.observation {
+            // before giving up: if the oracles already object to one of the two runs, that is the verdict
+            for (q, o) in [(&qa, &a), (&qb, &b)] {
+                for f in q.findings.iter().filter(|f| f.property == property) {
+                    res.violations.push(Violation {
+                        property: f.property,
+                        signature: format!("{}/{}", f.property, f.monitor),
+                        detail: format!("{} | driver {} | default schedule (the same schedule behaved differently when run twice)", f.detail, d.label),
+                        replay: replay_json(d, RwPolicy::ReadersBarge, o),
+                    });
+                }
+            }
+            if !res.violations.is_empty() {
+                res.violations.truncate(2);
+                res.schedules = 2;
+                res.by_bound.push((0, policy_name(RwPolicy::ReadersBarge).to_string(), 2));
+                res.points_total = (a.points.len() + b.points.len()) as u64;
+                res.max_points = a.points.len().max(b.points.len());
+                res.distinct_observations = 2;
+                return res;
+            }
             vsched::machinery_failure(&format!("driver {} is not deterministic:\n{:?}\n{:?}\n{}\n{}", d.label, a.render_schedule(), b.render_schedule(), qa.observation, qb.observation));
         }
         // drivers with only a handful of scheduling points (thread scope: operation boundaries
